@@ -89,7 +89,11 @@ func (self ValueList) Fields() (map[string]*Value, *VmInterrupt) {
 		}),
 		"concat": NewValueBuiltinFunction(func(executor Executor, cancelCtx *context.Context, span errors.Span, args ...Value) (*Value, *VmInterrupt) {
 			other := args[0].(ValueList)
-			*self.Values = append(*self.Values, *other.Values...)
+			// every element gets a box of its own: an assignment to an element of one list must not reach the other
+			for _, element := range *other.Values {
+				boxed := *element
+				*self.Values = append(*self.Values, &boxed)
+			}
 			return NewValueNull(), nil
 		}),
 		"join": NewValueBuiltinFunction(func(executor Executor, cancelCtx *context.Context, span errors.Span, args ...Value) (*Value, *VmInterrupt) {
